@@ -1,5 +1,8 @@
 import RulioProofs.StateTI
 
+set_option linter.unusedSimpArgs false
+set_option linter.unusedVariables false
+
 /-! # Frame lemmas: what `rem`/`search` of both states can change, for any fuel, with or without errors -/
 
 /-- `s'` is `s` with some facts (and their storage/index entries) removed -/
